@@ -52,7 +52,8 @@ void Curve::append_cubic(const Vec2 p0, const Vec2 p1, const Vec2 p2, const Vec2
             if (curvature < GDSTK_PARALLEL_EPS) {
                 dt = 1.0;
             } else {
-                double angle = 2 * acos(1 - curvature * tolerance);
+                // A tolerance larger than the local diameter of curvature allows any step
+                double angle = 2 * acos(fmax(-1.0, 1 - curvature * tolerance));
                 dt = angle / (curvature * len_dc);
             }
         }
@@ -103,7 +104,8 @@ void Curve::append_quad(const Vec2 p0, const Vec2 p1, const Vec2 p2) {
             if (curvature < GDSTK_PARALLEL_EPS) {
                 dt = 1.0;
             } else {
-                double angle = 2 * acos(1 - curvature * tolerance);
+                // A tolerance larger than the local diameter of curvature allows any step
+                double angle = 2 * acos(fmax(-1.0, 1 - curvature * tolerance));
                 dt = angle / (curvature * len_dc);
             }
         }
@@ -168,7 +170,8 @@ void Curve::append_bezier(const Array<Vec2> ctrl) {
             if (curvature < GDSTK_PARALLEL_EPS) {
                 dt = 1.0;
             } else {
-                double angle = 2 * acos(1 - curvature * tolerance);
+                // A tolerance larger than the local diameter of curvature allows any step
+                double angle = 2 * acos(fmax(-1.0, 1 - curvature * tolerance));
                 dt = angle / (curvature * len_dc);
             }
         }
